@@ -12,10 +12,17 @@ RULE = ('structured extension lists (ids 3..127, frames < nb_frames <= 48, paylo
         'repacketizer op sequences (cat / out_range / out_range_impl with extension lists, pad_impl) from the C07 harness; '
         'a case is distinct by its (op, outcome kind) class')
 NOT_COVERED = [
-    'generate with an invalid payload length (short ID with len > 1, len < 0) => BAD_ARG: tied (S3) and searched (S4) only',
     'repacketizer carriage of extensions (merge/split/pad): the theorem is OpusProps.C07.out_roundtrip_ext (built on generate_parse / '
     'generate_parse_padded of this property); here it is tied differentially (S3, ext-repack) and searched on the implementation (S4)',
-    'opus_int32 overflow of lengths: lengths are unbounded integers in the model (buffers < 2^31 assumed)',
+    'opus_int32 arithmetic is proved exact (int_ranges_iter / _count / _generate) only below these limits; beyond them the C code '
+    'computes a signed overflow the unbounded-integer model does not have: (a) the int count of opus_packet_extensions_count / '
+    '_count_ext exceeds INT_MAX for crafted padding of len >= 2^31/nb_frames bytes (44.7 MB at 48 frames; bound nb_frames*len, '
+    'reached up to one byte: int_ranges_count_tight); (b) length_bytes + ext->len in write_extension_payload for a long extension '
+    'of ext->len >= 2139095040 bytes; (c) on unvalidated lengths, before the call is rejected with BAD_ARG: the write-only variable '
+    'trailing_short_len of opus_packet_extensions_generate (+= extensions[i].len, not in the model) and the ID byte sum (id<<1) + '
+    'ext->len for a short ID with ext->len > INT32_MAX - 2*id (gcc narrows both away: no UBSan report at -fsanitize=undefined)',
+    'the lacing-loop ranges of int_ranges_iter are stated on lacingTrace, a 6-line function with the recursion of the model\'s lacing '
+    'that lists (len, bytes, header_size) after each pass (lacing_mem_trace: its last entry is what lacing returns)',
     'iterator constructed with nb_frames = 0 whose frame_max is then raised above 0 by opus_extension_iterator_set_frame_max: the code then '
     'reports frame-0 extensions although no frame exists. Not reachable through the public API: the extension functions are declared '
     'only in src/opus_private.h (no OPUS_EXPORT, not in include/), set_frame_max has no caller inside the library, and the two internal '
@@ -31,8 +38,10 @@ REQUIRED_THEOREMS = ['OpusProps.C16.iter_safe', 'OpusProps.C16.iter_terminates',
                      'OpusProps.C16.generate_within', 'OpusProps.C16.generate_bad_arg', 'OpusProps.C16.generate_bad_len',
                      'OpusProps.C16.generate_parse', 'OpusProps.C16.generate_parse_padded', 'OpusProps.C16.generate_parse_ext',
                      'OpusProps.C16.fixed_point',
-                     'OpusProps.C16.parse_canonical']
-UNPROVED = ['int_ranges: lengths/positions are unbounded Int/Nat in the model (opus_int32 overflow for buffers >= 2^31 not excluded)']
+                     'OpusProps.C16.parse_canonical',
+                     'OpusProps.C16.int_ranges_iter', 'OpusProps.C16.int_ranges_count', 'OpusProps.C16.int_ranges_count_tight',
+                     'OpusProps.C16.int_ranges_generate']
+UNPROVED = []
 
 
 def _cases(ctx, quick, thorough):
